@@ -226,8 +226,9 @@ def _json_str(s):
 
 
 def dumps(obj, indent=None, **kw):
-    if kw.get('ensure_ascii', True) is not True or set(kw) - {'ensure_ascii'}:
+    if kw.get('ensure_ascii', True) is not True or set(kw) - {'ensure_ascii', 'allow_nan', 'sort_keys'} or kw.get('sort_keys'):
         raise Unsupported('json.dumps options %r' % (kw,))
+    allow_nan = kw.get('allow_nan', True)
     import json as _json
     parts = []
 
@@ -239,7 +240,7 @@ def dumps(obj, indent=None, **kw):
         if isinstance(o, str):
             parts.append(_json_str(o))
         elif o is None or isinstance(o, (bool, int, float)):
-            parts.append(_json.dumps(o))
+            parts.append(_json.dumps(o, allow_nan=allow_nan))
         elif isinstance(o, dict):
             if not o:
                 parts.append('{}')
